@@ -6,6 +6,8 @@
 //!   harness <component> run <opsfile> <outdir>       writes <outdir>/impl.txt, oracle.txt
 mod rng;
 mod segments;
+mod tx;
+mod txgen;
 mod util;
 
 use std::fs;
@@ -30,6 +32,8 @@ fn main() {
             let mut stats = util::Stats::default();
             match comp {
                 "segments" => segments::gen(seed, tier, &mut w, &mut stats),
+                "recv" => txgen::gen_recv(seed, tier, &mut w, &mut stats),
+                "send" => txgen::gen_send(seed, tier, &mut w, &mut stats),
                 _ => panic!("unknown component {comp}"),
             }
             w.flush().unwrap();
@@ -43,6 +47,8 @@ fn main() {
             let mut orc = BufWriter::new(fs::File::create(format!("{outdir}/oracle.txt")).unwrap());
             match comp {
                 "segments" => segments::run(&ops, &mut out, &mut orc),
+                "recv" => tx::run(&ops, true, &mut out, &mut orc),
+                "send" => tx::run(&ops, false, &mut out, &mut orc),
                 _ => panic!("unknown component {comp}"),
             }
             out.flush().unwrap();
